@@ -6,6 +6,8 @@ Layer B: chains of 6..12 sites spaced 0.8 L that cross several chunks along RA, 
 Layer S: serpentines and combs (2-4 parallel rows joined at alternating / equal ends, one bridge removed in turn) that
          force multi-level merges of provisional per-chunk groups, in six input orders.
 Layer P: all 720 input orders of fixed 6-point configurations that span chunks, the RA seam and the pole.
+Layer M: linking lengths 1 mas, 10 mas, 0.1 arcsec, 1 arcsec: every ordered tuple (exact duplicates included) over six
+         compact sites with separations 0, 0.5, 0.8, 1.3, 2.5 x L at five declinations, both poles and across RA 0/360.
 Oracle: connected components of {sep <= L} by union-find on brute-force separations (_sphere.sep_deg).
 """
 import itertools
@@ -25,14 +27,15 @@ LEVEL_TEXT = ('every ordered tuple of 2-5 sites over per-scene alphabets (equato
               'sky), every single-cut chain crossing chunks in every rotation/reversal and all 720 orders of fixed 6-point '
               'configurations are grouped by the real code for each linking length and chunk size of the menu and all four '
               'returned arrays are compared with the reference partition')
-LEVEL_NOTE = ('holds for the enumerated scenes, linking lengths 1 arcsec..30 deg, chunk sizes (including ones the code clamps to '
+LEVEL_NOTE = ('holds for the enumerated scenes, linking lengths 1 mas..30 deg, chunk sizes (including ones the code clamps to '
               '4 L) and list lengths <= 12; configurations whose partition changes within 1e-9 relative of the linking length '
               'are do-not-care. Trusted: the separation formula and union-find in mc/props/_sphere.py, numpy.')
 RULE = ('Layer A: per (scene, linking length L, chunk size) all n^2+..+n^5 ordered tuples with repetition over the first n sites '
         '(n=7 thorough, 6 quick) placed at multiples of 0.37 L. Layer B: per (scene, direction, L, chunk) chains of N sites spaced '
         '0.8 L with no cut or one link widened to 1.3 L, in all N rotations x 2 directions of the input order. Layer S: 2-4 rows of '
         '6 or 10 sites joined as serpentine/comb (4 patterns), each bridge removed in turn, rows along RA or Dec, 6 input orders. Layer P: all 720 '
-        'orders of two 6-point configurations. A case is non-trivial when at least two distinct positions are within the linking '
+        'orders of two 6-point configurations. Layer M: L in {1 mas, 10 mas, 0.1 arcsec, 1 arcsec} x 7 compact scenes: all ordered '
+        'tuples with repetition (2-3 sites quick, 2-5 thorough) over 6 sites whose separations are 0/0.5/0.8/1.3/2.5 x L. A case is non-trivial when at least two distinct positions are within the linking '
         'length of each other (a group that has to be found); distinct = distinct (coordinates in input order, L, chunk size).')
 ASSUMPTIONS = ['a case is do-not-care when the components of {sep <= L(1-1e-9)-1e-12} and {sep <= L(1+1e-9)+1e-12} differ',
                'the next[] chain may visit the members of a group in any order (the statement fixes only its start, coverage and end)',
@@ -209,6 +212,11 @@ def tasks(tier):
         for L in (LENGTHS if T else [0.1, 5.0]):
             for cf in ([None, 4.0, 4.5, 8.0] if T else [None, 4.5]):
                 t.append({'layer': 'S', 'scene': scene, 'L': L, 'cf': cf})
+    for scene in S.MICRO_SCENES:
+        for L in S.MICRO_LENGTHS:
+            for cf in ([None, 4.0, 8.0, 20.0] if T else [None, 4.5]):
+                t.append({'layer': 'M', 'scene': scene, 'L': L, 'cf': cf,
+                          'lens': ([2, 3, 4, 5] if cf in (None, 4.0) else [2, 3, 4]) if T else [2, 3]})
     for cfgname in ('seam-chain', 'pole-ring'):
         for L in (LENGTHS if T else [0.1, 5.0]):
             for cf in ([None, 4.0, 8.0] if T else [None]):
@@ -407,7 +415,31 @@ def _run_S(acc, task):
         acc.sample(make_case(last[0], last[1], L, chunk))
 
 
+# ------------------------------------------------------------------ layer M: milli-arcsecond linking lengths
+def _run_M(acc, task):
+    """All ordered tuples (with repetition, so exact duplicates occur) over a compact site set whose separations are
+    0, 0.5, 0.8, 1.3, 2.5 ... times a linking length of 1 mas .. 1 arcsec."""
+    scene, L, cf = task['scene'], task['L'], task['cf']
+    chunk = _chunk(L, cf)
+    sites = S.micro_sites(scene, L, 6)
+    ra = np.array([p[0] for p in sites], dtype=float)
+    dec = np.array([p[1] for p in sites], dtype=float)
+    lens = task['lens']
+    cells = S.cell_count(ra, dec, S.effective_chunk(L, chunk, True))
+    if cells > GUARD:
+        acc.skip('resource-guard: micro %s L=%g chunk=%s -> %d cells per call' % (scene, L, chunk, cells),
+                 sum(6 ** a for a in lens))
+        return
+    full = S.sep_matrix(ra, dec, ra, dec)
+    cfg = ('M', scene, L, cf)
+    for ln in lens:
+        for tup in itertools.product(range(6), repeat=ln):
+            idx = np.array(tup)
+            _one(acc, cfg, tup, ra[idx], dec[idx], L, chunk, sep=full[np.ix_(idx, idx)])
+    acc.sample(make_case(ra[:3], dec[:3], L, chunk))
+
+
 def run_task(task):
     acc = Acc()
-    {'A': _run_A, 'B': _run_B, 'P': _run_P, 'S': _run_S}[task['layer']](acc, task)
+    {'A': _run_A, 'B': _run_B, 'P': _run_P, 'S': _run_S, 'M': _run_M}[task['layer']](acc, task)
     return acc
